@@ -119,7 +119,7 @@ def profiles_mc(chk, name, roles, maxlen, profs, ops, instances=(0,), invariants
         import shutil
         shutil.rmtree(os.path.dirname(upath), ignore_errors=True)
         label = "%s[%s] %s inst=%d" % (name, ",".join("%s=U+%04X" % (r, chosen[r]) for r in roles),
-                                       ("framed f^i x f^j y f^k i<=%d j<=%d k<=%d fillers %s" % frame) if frame else ("len<=%d" % maxlen), inst)
+                                       ("framed f^i x g^j y g^k i<=%d j<=%d k<=%d fillers %s" % frame) if frame else ("len<=%d" % maxlen), inst)
         if mc.res.violated:
             spec_violation(chk, mc, label)
             continue
@@ -212,6 +212,8 @@ def C11(chk):
     profiles_mc(chk, "width", ["a", "FWA", "HWK", "ISP", "rom4", "eac", "emo", "fwa"], n, ["UCM", "UCP"],
                 ["width_mapping_rule"], insts, invariants=["Agree", "MappingsAgree", "MappingsIdempotent"])
     profiles_mc(chk, "width-prepare", ["a", "FWA", "HWK", "ISP", "rom4", "eac", "FWBANG"], n - 1, ["UCM", "UCP"], ["prepare"], insts)
+    profiles_mc(chk, "width-framed", ["FWA", "HWK", "ISP", "han", "cjkp", "emo"], 0, ["UCM"], ["width_mapping_rule"], (0,),
+                invariants=["Agree", "MappingsAgree"], frame=(9, 3, 1, ("a", "han")) if q else (17, 5, 2, ("a", "eac", "han")))
     apply_l1(chk, ["wm"], nontrivial_key="wm")
     l3_run(chk, "width", strings=400 if q else 5000, per_string=3, kinds=["width_mapping_rule", "width_mapping_rule", "prepare"], profiles=["UCM", "UCP"])
     chk.cov["exhaustive"] = True
@@ -334,7 +336,7 @@ def C07(chk):
                harness_args=["--forms"])
     generic_mc(chk, "MC_Compare", "normalization", ["e", "acute", "Eac", "angst", "rom4", "dotI", "diaer"], {"MaxLen": 2, "Profs": profs}, invs_t, insts,
                harness_args=["--forms"])
-    generic_mc(chk, "MC_Compare", "case-then-nfc", ["capJ", "caron", "dotI", "cedil", "a", "capH", "macronb"], {"MaxLen": 2, "Profs": profs}, invs_t, (0,),
+    generic_mc(chk, "MC_Compare", "case-then-nfc", ["capJ", "caron", "lowj", "jcar", "dotI", "cedil", "a"], {"MaxLen": 2, "Profs": profs}, invs_t, (0,),
                harness_args=["--forms"])
     generic_mc(chk, "MC_Compare", "latin1-compat", ["micro", "mu", "sup2", "two", "ordm", "o", "A"], {"MaxLen": 2, "Profs": profs}, invs_t, (0,),
                harness_args=["--forms"])
@@ -585,7 +587,9 @@ def C16(chk):
     insts = (0,) if q else (0, 1, 2)
     allp = ["UCM", "UCP", "OPQ", "NICK"]
     profiles_mc(chk, "forms-case", ["a", "A", "Sig", "GRK", "grk", "FWA", "SP", "dotI"], n, allp, ["prepare", "enforce"], insts, invariants=["Agree"], forms=True)
-    profiles_mc(chk, "forms-nfc", ["e", "acute", "Eac", "NBSP", "rom4", "heb", "d1", "aid", "diaer"], n, allp, ["prepare", "enforce"], insts, invariants=["Agree"], forms=True)
+    profiles_mc(chk, "forms-nfc", ["e", "acute", "Eac", "NBSP", "rom4", "heb", "d1", "aid", "diaer", "hcj"], n, allp, ["prepare", "enforce"], insts, invariants=["Agree"], forms=True)
+    generic_mc(chk, "MC_Compare", "forms-compare", ["a", "A", "SP", "TAB", "unas", "FWA"], {"MaxLen": 2, "Profs": tla_set(allp)},
+               ["ResultRule", "Symmetric"], (0,), harness_args=["--forms"])
     # (2b) history independence of classification: every scalar value in six different call orders and on 8 threads
     out, t = run_harness(["ordersweep", "--seed", str(chk.seed)])
     osum = None
